@@ -5,6 +5,7 @@ All rules read borrowck-time MIR / THIR / item facts of /repo's current tree.
 """
 from vlib import facts as F, thir as T
 from vlib.report import loc_of
+from . import readers as R
 
 AGENT = "bgpfu_junos_agent"
 RUN = AGENT + "::task::Updater::<T>::run"
@@ -43,6 +44,7 @@ def run(ctx):
     r4_typestate(chk, fx)
     r5_handle_task(chk, fx)
     r6_acknowledgement(chk, fx)
+    r7_close_verdict(chk, fx)
 
 
 # ---------------------------------------------------------------------------------------------
@@ -544,5 +546,32 @@ def r6_acknowledgement(chk, fx):
             raise F.AnchorLost("reader not found: %s" % name)
         n += 1
         c08.r1_reader(sub, fx, fx.mir[name], bodies, adt, succ)
+        c08.r4_strict_reader(sub, fx, name)
     chk.floor("C04/R6 reply readers of the run's steps", n, 4)
     c08.r2_into_result(sub, fx)
+
+
+# ---------------------------------------------------------------------------------------------
+def r7_close_verdict(chk, fx):
+    """Session::close is the one library wrapper between a step of the run and its reply future: whatever it awaits (the send of
+    <close-session>, then the reply), a failure of that await must come out as Err — a hang-up instead of the acknowledgement is not
+    an acknowledgement.  Decided on every coroutine body under Session::close by abstract interpretation."""
+    from vlib import absint as A
+    root = "netconf::session::Session::<T>::close"
+    defs = sorted(d for d in fx.thir if d == root or d.startswith(root + "::{closure"))
+    if not defs:
+        raise F.AnchorLost("Session::close not found")
+    it = A.Interp(fx, crates=("netconf",), hook=lambda fn, args, node, i: ("sym", "RPC") if T.short(fn, 2) == "Session::rpc" else None)
+    n = 0
+    for d in defs:
+        for p in it.explore(d):
+            failed = sorted(k for k, v in p.assume.items() if k.startswith("variant:") and k.endswith(".await") and v == "Err")
+            if not failed or p.end == "abort":
+                continue
+            n += 1
+            ok = A.is_res(p.ret) and p.ret[2] == "Err"
+            chk.instance("C04/R7", "Session::close: a failed await (%s) comes out as Err (%s)" % (failed[0][8:60], A.vstr(p.ret)[:60]), d,
+                         loc_of(fx.thir[d].get("sp")), holds=ok, key="C04/R7 Session::close failure-reported-as-success",
+                         detail=None if ok else "the step is reported successful although its request or reply failed: %s" % {k: v for k, v in p.assume.items() if "await" in k})
+        chk.analysed(d)
+    chk.floor("C04/R7 failing awaits in Session::close", n, 2)
